@@ -8,7 +8,9 @@ func branch(pc ProgramCounter, b ProgramCounter, C bool, bitmask Bitmask, instru
 	switch {
 	case !C:
 		return ExitContinue, pc
-	case !bitmask.IsStartOfBasicBlock(b) && instruction.isOpcodeValid(b):
+	case !bitmask.IsStartOfBasicBlock(b) || !instruction.isOpcodeValid(b):
+		// b is not a basic-block start (this includes targets beyond the code, for which
+		// IsStartOfBasicBlock is false) or holds no valid opcode
 		return ExitPanic, pc
 	case b == pc:
 		// a taken branch to the instruction's own position: the engines tell "taken" from "not taken" by
